@@ -87,6 +87,9 @@ pub struct CommitEntry {
     pub by: String,
     pub welcomes: Vec<MlsMessage>,
     pub msg: MlsMessage,
+    /// insider forgeries of this commit: (kind, message) built by the same member from the same state and the
+    /// same proposals, structurally invalid but signed, tagged and hashed consistently (C03)
+    pub forged: Vec<(String, MlsMessage)>,
     pub tree: Option<Vec<u8>>, // exported tree bytes of the new epoch (out of band)
     pub base_epoch: u64,
 }
